@@ -1,5 +1,5 @@
 # replay of a bounded stand-in violation (C08): re-run native/c08_history.py
 import sys
-print("fock [['D0', 'N2', 'G1']]: running segment 0 of a valid history raised ValueError: axes don't match array")
+print("gaussian [['N1'], ['Dlast']]: building segment 1 changed the register of an earlier program from [0, 1] to [0]")
 print('REPLAY-VIOLATION')
 sys.exit(1)
